@@ -5,7 +5,7 @@
    interleaving of client calls, per-channel deliveries (OSrv c / OCli c), disconnects, clock
    ticks and housekeeping runs, because `ops` is universally quantified. *)
 From OlaBase Require Import Bytes.
-From C04 Require Import Gen Model Proofs Once Fidelity Safe Merge Wf Fidelity2 Fifo.
+From C04 Require Import Gen Model Proofs Once Fidelity Safe Merge Wf Fidelity2 Fifo Exactly.
 Local Open Scope N_scope.
 
 (* constants regenerated from the headers equal the numbers the property text uses *)
@@ -33,7 +33,7 @@ Print Assumptions c04_stored_value.
    in ANY state, when the server processes a send (acked or streamed) of (d,p) from client c to an
    existing universe x whose only source is c (or that has none yet), with a non-empty frame, and no
    sink of x is a half-closed connection (the guard that excludes finding
-   C04-sink-push-reentrant-close), then: the source stored for (c,x) is exactly (d cut to 512, now,
+   C04-sink-push-reentrant-close), then: the source stored for (c,x) is exactly (d cut to 512, the loop's wake-up time,
    clamped p); the universe holds exactly that frame and priority; every registered sink's channel
    gets exactly one push carrying that universe number, priority and frame appended, nobody else's
    channel or request table changes; no hazard is raised; and a fetch of x processed at that point
@@ -41,14 +41,14 @@ Print Assumptions c04_stored_value.
    Missing for full strength: NoDup of the sink set and "sinks have sessions" are hypotheses here,
    not proved invariants of reachable states. *)
 Theorem c04_fidelity_partial : forall st c x d p,
-  st_now st <> 0 -> dmx_set d <> [] ->
+  st_wake st <> 0 -> st_now st < st_wake st + 2500000 -> dmx_set d <> [] ->
   find_uni (sv_unis (st_sv st)) (u_id x) = Some x ->
   (u_srcs x = [] \/ exists b, u_srcs x = [(c, b)]) ->
   NoDup (u_sinks x) -> st_pend st = [] ->
   (forall s, In s (u_sinks x) -> sv_alive (st_sv st) s = true /\ k_closed (st_cl st s) = false) ->
   let st' := apply_dmx st c x d p in
   cd_find (sv_cdata (st_sv st')) (c, u_id x)
-    = Some {| s_data := dmx_set d; s_ts := st_now st; s_prio := clamp_prio p |} /\
+    = Some {| s_data := dmx_set d; s_ts := st_wake st; s_prio := clamp_prio p |} /\
   (exists x2, find_uni (sv_unis (st_sv st')) (u_id x) = Some x2 /\
               u_buf x2 = dmx_set d /\ u_aprio x2 = clamp_prio p /\ u_sinks x2 = u_sinks x /\
               src_memb c (u_srcs x2) = true) /\
@@ -90,9 +90,8 @@ Print Assumptions c04_fifo_partial.
 (* Never twice, under any schedule at all: for every number of clients and every op list (client
    calls, deliveries in any order, disconnects anywhere, ticks, housekeeping), the completion
    callback of every request id has run at most once.
-   PARTIAL with respect to the property's "exactly once while the connection stays up and the
-   channels are drained": that liveness half is NOT proved (it is exercised by the correspondence
-   check: key cnt after a final drain). *)
+   (The "exactly once while the connection stays up and the channels are drained" half is
+   c04_once below; this theorem is its first clause, kept under its original name.) *)
 Theorem c04_once_partial : forall n ops r,
   (completions (run (init_state n) ops) r <= 1)%nat.
 Proof. exact at_most_once. Qed.
@@ -198,7 +197,7 @@ Theorem c04_fidelity : forall n ops c k' x d p,
   let st := set_busy (set_cl st0 c k') true in
   find_uni (sv_unis (st_sv st0)) (u_id x) = Some x ->
   let st' := apply_dmx st c x d p in
-  let src := {| s_data := dmx_set d; s_ts := st_now st0; s_prio := clamp_prio p |} in
+  let src := {| s_data := dmx_set d; s_ts := st_wake st0; s_prio := clamp_prio p |} in
   cd_find (sv_cdata (st_sv st')) (c, u_id x) = Some src /\
   exists x2 ch,
     find_uni (sv_unis (st_sv st')) (u_id x) = Some x2 /\
@@ -210,7 +209,7 @@ Theorem c04_fidelity : forall n ops c k' x d p,
      (ch = true -> In (c, src) G /\
         (u_htp x = true -> u_buf x2 = fold_left htp (map (fun e => s_data (snd e)) G) []) /\
         (u_htp x = false -> u_buf x2 = dmx_set d /\
-                            (forall e, In e G -> s_ts (snd e) <= st_now st0 \/ G = [(c, src)])))) /\
+                            (forall e, In e G -> s_ts (snd e) <= st_wake st0 \/ G = [(c, src)])))) /\
     (ch = true -> forall s, In s (u_sinks x) -> k_closed (st_cl st s) = false ->
        k_s2c (st_cl st' s) = k_s2c (st_cl st s) ++ [SPush (u_id x) (u_aprio x2) (u_buf x2)]) /\
     (ch = false -> st_cl st' = st_cl st) /\
@@ -257,9 +256,40 @@ Theorem c04_fifo : forall n ops c,
 Proof. exact applied_in_send_order. Qed.
 Print Assumptions c04_fifo.
 
+(* EXACTLY ONCE, every schedule.  For every number of clients and every op list (calls, deliveries
+   in any order, disconnects anywhere, clock ticks/jumps, housekeeping):
+   (1) no request id's completion callback has run more than once;
+   (2) for every client whose connection is up (it has not stopped) and whose two channels are
+       drained, the outstanding table is empty and every request id that client ever issued has
+       completed exactly once (with its result or an error: completions are only produced by the
+       reply carrying that id, or at once by the "Not connected" path);
+   (3) more generally, while a client is connected its outstanding table is a permutation of the
+       request ids in flight in its two channels, and every id any client issued is completed or
+       still in that client's outstanding table. *)
+Theorem c04_once : forall n ops,
+  let st := run (init_state n) ops in
+  (forall r, (completions st r <= 1)%nat) /\
+  (forall c, k_closed (st_cl st c) = false -> k_c2s (st_cl st c) = [] -> k_s2c (st_cl st c) = [] ->
+     k_out (st_cl st c) = [] /\ forall r, In (c, r) (st_issued st) -> completions st r = 1%nat) /\
+  (forall c, k_closed (st_cl st c) = false ->
+     Permutation.Permutation (map fst (k_out (st_cl st c))) (inflight (st_cl st c))) /\
+  (forall c r, In (c, r) (st_issued st) -> In r (st_done st) \/ In r (map fst (k_out (st_cl st c)))).
+Proof.
+  intros n ops. cbn zeta. split; [intros r; apply at_most_once|].
+  split; [intros c; apply (drained_exactly_once n ops c)|].
+  destruct (E_run _ ops (E_init n)) as (HB & HC & _). split; [exact HB|exact HC].
+Qed.
+Print Assumptions c04_once.
+
+Example c04_once_nonvacuous :
+  let st := run (init_state 2) [OReg 0 1 true; OFetch 0 1; OSrv 0; OSrv 0; OCli 0; OCli 0] in
+  k_closed (st_cl st 0) = false /\ k_c2s (st_cl st 0) = [] /\ k_s2c (st_cl st 0) = [] /\
+  st_issued st = [(0, 0); (0, 1)] /\ st_done st = [0; 1].
+Proof. vm_compute. repeat split. Qed.
+
 (* hypotheses of c04_fidelity_partial are satisfiable, with a registered sink *)
 Example c04_fidelity_nonvacuous :
   let st := run (init_state 2) [OReg 0 1 true; OSrv 0] in
   exists x, find_uni (sv_unis (st_sv st)) 1 = Some x /\ u_sinks x = [0] /\ u_srcs x = [] /\
-            sv_alive (st_sv st) 0 = true /\ k_closed (st_cl st 0) = false /\ st_now st <> 0.
+            sv_alive (st_sv st) 0 = true /\ k_closed (st_cl st 0) = false /\ st_wake st <> 0 /\ st_now st < st_wake st + 2500000.
 Proof. cbn zeta. eexists. vm_compute. repeat split; discriminate. Qed.
